@@ -106,7 +106,7 @@ class Check:
     # ------------------------------------------------------------------ replay
     def replay_tokens(self, rec):
         """argv tokens after --replay-case for an elem-style record"""
-        if rec.get("kind", "elem") in ("elem", "elem_c13"):
+        if rec.get("kind", "elem") in ("elem", "elem_c13", "red", "move", "mem", "math", "cplx", "cpuid", "alloc"):
             return [rec["op"], rec["type"], rec.get("target", "*"), str(rec.get("imm", [0])[0])] + list(rec["inputs"])
         return ["json", json.dumps(rec)]
 
